@@ -56,6 +56,10 @@ structure Chem where
   index : List (String × Ent)
   /-- `_group_mol_compositions` (normalised) -/
   comps : List (String × List Rat)
+  /-- `_group_wt_compositions` (normalised) -/
+  wcomps : List (String × List Rat) := []
+  /-- `MW` by position -/
+  mw : List Rat := []
   deriving Repr, Inhabited, DecidableEq
 
 /-- Attribute names that are in `__dict__` while `_compile` sets the aliases. -/
@@ -85,17 +89,37 @@ def Chem.indices (c : Chem) : List String → Except Err (List Ent)
 /-- `set_alias(ID, alias)`.  `res` = the attribute names present in `__dict__`.
 An alias is accepted when it is new, or already names the same chemical; it is
 rejected (`ValueError`) when it names another chemical, a group or an attribute.
-(`ID` naming a group or an attribute is outside the modelled domain: `typeError`.) -/
+`ID` naming an attribute fails on `self._index[ID]` (`KeyError`); `ID` naming a group
+fails on `chemical.aliases` (`AttributeError`, reported as `typeError`) — after the new name
+has been entered: see `setAliasFail`. -/
 def Chem.setAlias (c : Chem) (res : List String) (id alias : String) : Except Err Chem :=
   match alookup id c.index with
-  | none => .error (if id ∈ res then .typeError else .keyError)
-  | some (.grp _) => .error .typeError
+  | none =>
+    if id ∈ res then
+      if alias = id then .error .keyError
+      else if alias ∈ res ∨ (alookup alias c.index).isSome then .error .valueError
+      else .error .keyError
+    else .error .keyError
+  | some (.grp _) =>
+    if alias = id then .error .typeError
+    else if alias ∈ res ∨ (alookup alias c.index).isSome then .error .valueError
+    else .error .typeError
   | some (.pos i) =>
     if alias ∈ res then .error .valueError else
     match alookup alias c.index with
     | none => .ok { c with index := c.index ++ [(alias, .pos i)] }
     | some (.pos j) => if j = i then .ok c else .error .valueError
     | some (.grp _) => .error .valueError
+
+/-- The tables after a *failed* `set_alias`: with a group name for `ID` and a new `alias`, the
+alias has already been entered as a second name of the group (without a composition) when
+`chemical.aliases` raises.  Every other failure happens before any change. -/
+def Chem.setAliasFail (c : Chem) (res : List String) (id alias : String) : Chem :=
+  match alookup id c.index with
+  | some (.grp is) =>
+    if alias = id ∨ alias ∈ res ∨ (alookup alias c.index).isSome then c
+    else { c with index := c.index ++ [(alias, .grp is)] }
+  | _ => c
 
 def sumRat : List Rat → Rat
   | [] => 0
@@ -106,19 +130,45 @@ def entsToPos : List Ent → Except Err (List Nat)
   | .pos i :: t => do let r ← entsToPos t; pure (i :: r)
   | .grp _ :: _ => .error .typeError
 
-/-- `define_group(name, IDs, composition)` with molar composition (`wt=False`).
-The stored molar composition is `composition / composition.sum()`. -/
-def Chem.defineGroup (c : Chem) (name : String) (ids : List String) (comp : Option (List Rat)) :
-    Except Err Chem :=
-  let comp := comp.getD (ids.map fun _ => 1)
-  if comp.length ≠ ids.length then .error .valueError
-  else if ids.any (fun i => (alookup i c.comps).isSome) then .error .valueError
-  else do
-    let es ← c.indices ids
-    let index ← entsToPos es
-    let total := sumRat comp
-    pure { c with index := ainsert name (.grp index) c.index,
-                  comps := ainsert name (comp.map (· / total)) c.comps }
+def mulList : List Rat → List Rat → List Rat
+  | x :: xs, y :: ys => x * y :: mulList xs ys
+  | _, _ => []
+
+def divList : List Rat → List Rat → List Rat
+  | x :: xs, y :: ys => x / y :: divList xs ys
+  | _, _ => []
+
+def normalise (l : List Rat) : List Rat := l.map (· / sumRat l)
+
+/-- `define_group(name, IDs, composition, wt)`.  Both compositions are stored normalised:
+`wt=False`: mol = composition, wt = composition·MW; `wt=True`: wt = composition, mol = composition/MW.
+
+Written to the fixed behaviour of fixes_proposed/C10-5: a name that is an attribute or a
+name of a chemical (any name in use that is not a group with a composition) is rejected
+(`ValueError`), as `set_alias` does; an existing group name is a redefinition. (The unfixed code silently turns the chemical's name into a group name.) -/
+def Chem.defineGroup (c : Chem) (res : List String) (name : String) (ids : List String)
+    (comp : Option (List Rat)) (wt : Bool := false) : Except Err Chem :=
+  if name ∈ res then .error .valueError else
+  match alookup name c.index, alookup name c.comps with
+  | some (.pos _), _ => .error .valueError
+  | some _, none => .error .valueError
+  | _, _ =>
+    let comp := comp.getD (ids.map fun _ => 1)
+    if comp.length ≠ ids.length then .error .valueError
+    else if ids.any (fun i => (alookup i c.comps).isSome) then .error .valueError
+    else
+      match c.indices ids with
+      | .error e => .error e
+      | .ok es =>
+        match entsToPos es with
+        | .error e => .error e
+        | .ok index =>
+          let mws := index.map fun i => c.mw.getD i 1
+          let cmol := if wt then divList comp mws else comp
+          let cwt := if wt then comp else mulList comp mws
+          .ok { c with index := ainsert name (.grp index) c.index,
+                       comps := ainsert name (normalise cmol) c.comps,
+                       wcomps := ainsert name (normalise cwt) c.wcomps }
 
 /-- One chemical handed to `_compile`: its ID, CAS and the set
 `{*iupac_name, *aliases, common_name, formula}`. -/
@@ -126,6 +176,7 @@ structure Spec where
   id : String
   cas : String
   names : List String
+  mw : Rat := 1
   deriving Repr, Inhabited
 
 def dedup : List String → List String
@@ -173,6 +224,6 @@ not claimed by two chemicals, through `set_alias` (whose `ValueError` aborts the
 construction). -/
 def compile (specs : List Spec) : Except Err Chem :=
   aliasLoop reservedEarly (aliasTodo specs)
-    { size := specs.length, index := baseIndex specs, comps := [] }
+    { size := specs.length, index := baseIndex specs, comps := [], wcomps := [], mw := specs.map (·.mw) }
 
 end ThermoVerif.Chemicals
